@@ -80,6 +80,11 @@ CLASSES = {
     "DenseTaxaTraitMatrix": dict(mod=M + "DenseTaxaTraitMatrix", roles=("taxa", "trait")),
     "DenseSquareTaxaMatrix": dict(mod=M + "DenseSquareTaxaMatrix", roles=("taxa", "taxa"), square=True),
     "DenseSquareTaxaTraitMatrix": dict(mod=M + "DenseSquareTaxaTraitMatrix", roles=("taxa", "taxa", "trait"), square=True),
+    # variance matrices with three / four square taxa axes: every structural operation is inherited
+    "DenseThreeWayDHAdditiveGenicVarianceMatrix": dict(mod="pybrops.model.vmat.DenseThreeWayDHAdditiveGenicVarianceMatrix",
+                                                       roles=("taxa", "taxa", "taxa", "trait"), square=True),
+    "DenseFourWayDHAdditiveGeneticVarianceMatrix": dict(mod="pybrops.model.vmat.DenseFourWayDHAdditiveGeneticVarianceMatrix",
+                                                        roles=("taxa", "taxa", "taxa", "taxa", "trait"), square=True),
     "DenseGenotypeMatrix": dict(mod="pybrops.popgen.gmat.DenseGenotypeMatrix", roles=("taxa", "vrnt"), dtype="int8"),
     "DensePhasedGenotypeMatrix": dict(mod="pybrops.popgen.gmat.DensePhasedGenotypeMatrix",
                                       roles=("phase", "taxa", "vrnt"), dtype="int8"),
@@ -340,9 +345,15 @@ class Run(object):
         for a in range(nd):
             out = out + ids[a].astype(numpy.float64) * (1000.0 ** (nd - 1 - a))
         if sp.get("square"):
+            # a cell is defined when all its taxa come from the same adjoined block (any number of leading square taxa axes)
             b = numpy.array([self.blk[e] for e in lists[0]], dtype=numpy.int64)
-            d2 = (b[:, None] == b[None, :])
-            d2 = d2.reshape(d2.shape + (1,) * (nd - 2))
+            k = sum(1 for r in roles if r == "taxa")
+            d2 = numpy.ones((len(b),) * k, dtype=bool)
+            for a in range(1, k):
+                sh0, sha = [1] * k, [1] * k
+                sh0[0], sha[a] = len(b), len(b)
+                d2 = d2 & (b.reshape(sh0) == b.reshape(sha))
+            d2 = d2.reshape(d2.shape + (1,) * (nd - k))
             defined = numpy.broadcast_to(d2, shape).copy()
             out = numpy.where(defined, out, numpy.nan)
         return out, defined
@@ -672,7 +683,8 @@ class Run(object):
 
     def sqtt_needed(self, ent, role):
         """DenseSquareTaxaTraitMatrix: copying operations along one axis forget the other axis' labels"""
-        if ent.kname != "DenseSquareTaxaTraitMatrix":
+        if ent.kname not in ("DenseSquareTaxaTraitMatrix", "DenseThreeWayDHAdditiveGenicVarianceMatrix",
+                             "DenseFourWayDHAdditiveGeneticVarianceMatrix"):
             return False
         return bool([n for r in dict.fromkeys(ent.roles) if r != role for n in LABELS.get(r, ()) if n in self.present])
 
@@ -921,7 +933,7 @@ class Run(object):
         # general path
         obj = ent.obj
         axes = self.axes_of(ent, role)
-        square = len(axes) == 2
+        square = len(axes) >= 2
         mat = obj.mat
         expm, _ = self.exp_mat(ent.roles, ent.ents, ent.kname, ent.phsum)      # ent.ents still has the old order
         labs = [n for n in LABELS.get(role, ()) if n in self.present and n not in ent.absent]
@@ -1295,6 +1307,7 @@ GROUPS = {
     "taxa-variant": ["DenseTaxaVariantMatrix", "DensePhasedTaxaVariantMatrix", "DenseGenotypeMatrix",
                      "DensePhasedGenotypeMatrix"],
     "taxa-trait-square": ["DenseTaxaTraitMatrix", "DenseSquareTaxaMatrix", "DenseSquareTaxaTraitMatrix",
+                          "DenseThreeWayDHAdditiveGenicVarianceMatrix", "DenseFourWayDHAdditiveGeneticVarianceMatrix",
                           "DenseCoancestryMatrix"],
     "breeding-value": ["DenseBreedingValueMatrix"],
 }
@@ -1312,7 +1325,8 @@ def make_case(rnd, kname, allow=(), script=(), nsteps=None, present=None, **over
     labels = class_labels(kname)
     if present is None:
         mode = rnd.choice(["all", "all", "random", "random", "none", "keys"])
-        if kname == "DenseSquareTaxaTraitMatrix" and T_SQTT not in allow:
+        if kname in ("DenseSquareTaxaTraitMatrix", "DenseThreeWayDHAdditiveGenicVarianceMatrix",
+                     "DenseFourWayDHAdditiveGeneticVarianceMatrix") and T_SQTT not in allow:
             mode = rnd.choice(["taxa-only", "taxa-only", "trait-only", "random", "none"])
         if mode == "all":
             present = list(labels)
